@@ -50,6 +50,22 @@ def check(run):
                 if lead:
                     gb = mkgrid(rng, s, (lead[0] * 2,) + lead[1:], g.shape[-2], g.shape[-1], **({"note": ["g", 2]} if extra else {}))
                     objs.append(("Grid", gb[::2], {"class": "Grid", "s": s, "lead": list(lead), "extra": extra, "view": "strided"}))
+    # objects that no constructor call would produce but every user can hold: views cut ALONG the mode axis / the grid axes (the
+    # metadata no longer matches the shape), and objects whose slots below |s| were assigned after construction.  A copy is a
+    # copy of what is there: same class, same bytes, same metadata.
+    for cls, obj, inp0 in list(objs):
+        if inp0["view"] != "contiguous" or inp0["extra"]:
+            continue
+        if cls == "Modes" and obj.shape[-1] >= 5:
+            objs.append(("Modes", obj[..., 1:4], {**inp0, "view": "mode-axis-slice"}))
+            objs.append(("Modes", obj[..., 2:3], {**inp0, "view": "mode-axis-slice-1"}))
+            if inp0["s"] != 0:
+                low = helpers.make_modes(rng, inp0["s"], obj.ell_max, tuple(inp0["lead"]))
+                low.view(np.ndarray)[..., :inp0["s"] ** 2] = 0.25 - 1.5j          # assigned by the user after construction
+                objs.append(("Modes", low, {**inp0, "view": "low-slots-assigned"}))
+        if cls == "Grid" and obj.shape[-2] >= 4:
+            objs.append(("Grid", obj[..., 1:3, :], {**inp0, "view": "theta-band"}))
+            objs.append(("Grid", obj[..., :, 0:2], {**inp0, "view": "phi-band"}))
     # Fortran-ordered / transposed memory layouts of the same kinds of object (a copy must hold equal data whatever the layout)
     for cls, obj, inp0 in list(objs):
         if inp0["view"] != "contiguous" or obj.ndim < 2:
